@@ -3,13 +3,6 @@
 // lemma quantified over *every* sequence that is pointwise the expected one (triggered on the terms
 // `sum_req(s)` / `spec_sum(s)` that the call to `sum` introduces) lets the solver pick the anonymous
 // sequence itself.
-/// A-len: the nodes of a well-formed tour are pairwise distinct (strictly increasing start times) and
-/// there are at most 2^16 service and 2^16 maintenance indices (Idx = u16), so a tour has at most
-/// 2^17 + 2 nodes; operations take this as a stated precondition on their inputs (`tour_len_ok`), the
-/// lemmas work up to twice that (`len_ok`) so that a tour + an inserted path is covered.
-pub open spec fn tour_len_ok(s: Seq<NodeIdx>) -> bool { s.len() <= 0x2_0002 }
-pub open spec fn len_ok(s: Seq<NodeIdx>) -> bool { s.len() <= 0x4_0004 }
-
 pub open spec fn is_dist_of_nodes(net: &Network, nodes: Seq<NodeIdx>, s: Seq<Distance>) -> bool {
     s.len() == nodes.len() && forall|i: int| 0 <= i < s.len() ==> #[trigger] s[i] == net.sp_node(nodes[i]).sp_travel_distance()
 }
